@@ -399,6 +399,32 @@ func TestVerifTrieMachine(t *testing.T) {
 						break
 					}
 				}
+				// ... and NextKey from every one of them: the least stored key strictly above it in byte order, whether the
+				// search key is stored, a prefix of stored keys, or leaves the trie inside a branch's partial key
+				if !failed {
+					sortedKeys := vSortedKeys(exp)
+					for _, pk := range alphabet {
+						var got []byte
+						pm := vTry(func() { got = tries[h].NextKey(pk) })
+						res.Cmp()
+						want, found := "", false
+						for _, k := range sortedKeys {
+							if bytes.Compare([]byte(k), pk) > 0 {
+								want, found = k, true
+								break
+							}
+						}
+						switch {
+						case pm != "":
+							fail("C02", "NextKey sweep", "no panic", pm, "NextKey/sweep/panic")
+						case found != (got != nil) || (found && !bytes.Equal(got, []byte(want))):
+							fail("C02", fmt.Sprintf("NextKey(%x) after the step", pk), fmt.Sprintf("%v %x", found, want), fmt.Sprintf("%v %x", got != nil, got), "NextKey/sweep/result")
+						}
+						if failed {
+							break
+						}
+					}
+				}
 			}
 			if failed {
 				tries = vtmResync(t, s.Obs)
